@@ -774,26 +774,50 @@ def describe_place(f, p):
     return base
 
 
+def kdesc(f, k):
+    """Describe a constant record (resolving promoteds like `&RegId::WRITABLE`)."""
+    if "promoted" in k and f is not None:
+        ps = f.get("proms") or []
+        idx = k["promoted"]
+        if isinstance(idx, int) and idx < len(ps):
+            inner = [x for x in ps[idx] if "const" in x or "v" in x or "fn" in x]
+            if len(inner) == 1:
+                return kdesc(None, inner[0])
+            if inner:
+                return "const:[" + ",".join(kdesc(None, x)[6:] for x in inner) + "]"
+    if "const" in k:
+        return "const:%s" % k["const"]
+    if "v" in k:
+        return "const:%s" % k["v"]
+    if "fn" in k:
+        return "fn:%s" % callee_name(k["fn"])
+    return "const<%s>" % k["t"]
+
+
+def kvalue(f, k):
+    """Integer value of a constant record (resolving promoteds), else None."""
+    if "v" in k:
+        return k["v"]
+    if "promoted" in k and f is not None:
+        ps = f.get("proms") or []
+        idx = k["promoted"]
+        if isinstance(idx, int) and idx < len(ps):
+            inner = [x for x in ps[idx] if "v" in x]
+            if len(inner) == 1:
+                return inner[0]["v"]
+    return None
+
+
 def describe(f, o, depth=10, through=TRANSPARENT):
     """Describe an operand by chasing temporaries to their root."""
     if o[0] == "k":
-        k = o[1]
-        if "v" in k:
-            return "const:%s" % k["v"]
-        if "const" in k:
-            return "const:%s" % k["const"]
-        if "fn" in k:
-            return "fn:%s" % callee_name(k["fn"])
-        return "const<%s>" % k["t"]
+        return kdesc(f, o[1])
     p = o[1]
     r = root_of(f, p[0], depth, through)
     if isinstance(r, list):
         return describe_place(f, r + p[1:])
     if r[0] == "const":
-        k = r[1]
-        if "v" in k:
-            return "const:%s" % k["v"]
-        return "const:%s" % k.get("const", k["t"])
+        return kdesc(f, r[1])
     if r[0] == "call":
         inner = ",".join(describe(f, a, depth - 3, through) for a in r[2]) if depth > 3 else "…"
         return "call:%s(%s)" % (callee_name(r[1]).rsplit("::", 1)[-1], inner)
@@ -857,6 +881,17 @@ def guards(f):
                 r = root_of(f, q[0])
             else:
                 break
+        if isinstance(r, tuple) and r[0] == "call" and len(r[2]) == 2:
+            m = re.search(r"cmp::Partial(?:Ord|Eq)(?:<[^>]*>)?(?:>)?::(lt|le|gt|ge|eq|ne)$", r[1]["def"])
+            if m:
+                opn = m.group(1).capitalize()
+                t, fl = tt
+                if neg:
+                    t, fl = fl, t
+                out.append({"bb": i, "op": opn, "a": r[2][0], "b": r[2][1],
+                            "a_desc": describe(f, r[2][0]), "b_desc": describe(f, r[2][1]),
+                            "t": t, "f": fl, "line": bb["t"][4], "via": "call"})
+                continue
         if isinstance(r, tuple) and r[0] == "rvalue" and r[1][0] == "bin" and r[1][1] in CMP_REGION:
             rv = r[1]
             t, fl = tt
@@ -885,3 +920,39 @@ def agg_blocks(f, adt_rx, variant=None):
         if rv[0] == "agg" and re.search(adt_rx, rv[1]) and (variant is None or rv[2] == variant):
             out.append(i)
     return out
+
+
+def forward_aliases(f, seeds, through_calls=TRANSPARENT):
+    """Locals that (transitively) hold a copy / reborrow / cast of any seed local.
+    A projection that only derefs keeps the alias; field/index projections do not."""
+    al = set(seeds)
+    changed = True
+
+    def is_alias_place(p):
+        return p[0] in al and all(e == "*" or e == "oc" for e in p[1:])
+
+    while changed:
+        changed = False
+        for i, j, p, rv, line in assignments(f):
+            if len(p) != 1 or p[0] in al:
+                continue
+            src = None
+            if rv[0] == "use":
+                src = op_place(rv[1])
+            elif rv[0] == "cast":
+                src = op_place(rv[2])
+            elif rv[0] in ("ref", "raw"):
+                src = rv[2]
+            if src is not None and is_alias_place(src):
+                al.add(p[0])
+                changed = True
+        if through_calls is not None:
+            for i, c, args, dest, tgt, line in calls(f):
+                if dest is None or len(dest) != 1 or dest[0] in al or not args:
+                    continue
+                if callee_matches(c, through_calls):
+                    src = op_place(args[0])
+                    if src is not None and is_alias_place(src):
+                        al.add(dest[0])
+                        changed = True
+    return al
